@@ -130,6 +130,8 @@ class NTVal:
 
 def _wrap_field(ft, t):
     t = z3.simplify(t)
+    if ft.kind == "box":
+        return _wrap_field(ft.inner, ft.unbox(t))
     if hasattr(ft, "wrap_obj"):
         return ft.wrap_obj(t)
     if ft.kind == "nt":
@@ -320,6 +322,8 @@ def seq_of_items(ex, items, sty):
 
 
 def _elem_term(x, ety):
+    if ety.kind == "box":
+        return ety.box(_elem_term(x, ety.inner))
     if isinstance(x, NTVal):
         return x.term()
     if isinstance(x, HObj) and hasattr(ety, "lift_obj"):
@@ -424,7 +428,10 @@ class Ex:
         from .values import SEEN_STR
         if len(SEEN_STR) > 600:
             return
-        gens = list(self.used_uf.values()) + list(self.models.ALWAYS_INSTANTIATE)
+        M_ = self.models
+        base = {"str_upper": (M_.str_upper, str.upper), "str_lower": (M_.str_lower, str.lower), "str_strip": (M_.str_strip, str.strip)}
+        base.update(self.used_uf)
+        gens = list(base.values()) + list(M_.ALWAYS_INSTANTIATE)
         if not gens:
             return
         for c in list(SEEN_STR):
@@ -1275,7 +1282,14 @@ class Ex:
         return self.sym_while(s, fr, spec, key)
 
     def _loop_state(self, spec, fr):
-        return {sl.name: sl.get(self, fr) for sl in spec.slots}
+        out = {}
+        for sl in spec.slots:
+            v = sl.get(self, fr)
+            if isinstance(v, (list, tuple)) and sl.ty.kind == "seq":
+                es = [z3.Unit(_elem_term(x, sl.ty.inner)) for x in v]
+                v = SV(z3.Empty(sl.ty.sort()) if not es else (es[0] if len(es) == 1 else z3.Concat(*es)), sl.ty)
+            out[sl.name] = v
+        return out
 
     def _havoc(self, spec, fr, tagname):
         vals = {}
@@ -1311,6 +1325,8 @@ class Ex:
                 hit = False
                 for sl in spec.slots:
                     if getattr(sl, "field", None) == field and sl.obj(self, fr) is obj:
+                        hit = True
+                    if getattr(sl, "owned", None) is not None and any(o is obj for o in sl.owned):
                         hit = True
                 if not hit:
                     # a write to a pre-existing object outside the loop's modifies-set: the frame obligation fails
@@ -1356,6 +1372,8 @@ class Ex:
                 for f in it.facts(self, i):
                     self.assume(f)
             x = it.at(self, i)
+            if getattr(it, "on_iterate", None):
+                it.on_iterate(self)
             outer = self.writes
             log = WriteLog()
             self.writes = log
@@ -1399,6 +1417,8 @@ class Ex:
                 self._note_var_def(f)
             # loop-local temporaries are undefined after the loop
             self.cover(f"{name}:exit")
+            if getattr(it, "on_exhaust", None):
+                it.on_exhaust(self)
             self.exec_block(s.orelse, fr)
 
     def sym_while(self, s, fr, spec, key):
@@ -1777,6 +1797,8 @@ class Ex:
             if is_and and not t:
                 return v
             if not is_and and t:
+                if is_sym(v) and v.ty.kind == "opt":
+                    return _wrap_field(v.ty.inner, v.ty.val(v.t))   # truthy, hence not None
                 return v
         return v
 
